@@ -2,7 +2,7 @@
 # usage: confirm_mutant.sh <worktree> <mN>  -- confirm: clean demo passes; with patch: make check passes, demo fails
 wt="$1"; m="$2"; cd "$wt" || exit 2
 git checkout -q -- . 
-demo=$(ls mutants/${m}_demo.* 2>/dev/null | grep -v '\.o$' | head -1)
+demo=$(ls mutants/${m}_demo.sh 2>/dev/null || ls mutants/${m}_demo.* 2>/dev/null | grep -v '\.o$' | grep -v '_bin$' | head -1)
 build_demo() {
   if [ -f mutants/${m}_build.sh ]; then sh mutants/${m}_build.sh >mutants/${m}_build.log 2>&1; return $?; fi
   case "$demo" in
